@@ -701,10 +701,24 @@ def check_fresh(ctx, algo):
         refresh = [n for n in ustores if any(isinstance(x, ast.Call) and method_name(x) == "updateUvalueTree" for r in E.node_exprs(n) for x in ast.walk(r))]
         ok = False
         why = "no whole-tree refresh"
+        fcr = CS.FnCtx(model, E.Effects(model), algo, fn)
+
+        def is_t_plus(src, test_node):
+            """src is compute_t_plus(self.iteration), or a local whose only reaching definition at the test is that call,
+            with self.iteration unchanged in between"""
+            if src == "compute_t_plus(self.iteration)":
+                return True
+            if src.isidentifier():
+                tn = fcr.cfg.node_of(test_node.ast)
+                ds, entry = fcr.reaching(src, tn)
+                return (not entry and len(ds) == 1 and ds[0][1][0] == "assign" and norm_src(ds[0][1][1]) == "compute_t_plus(self.iteration)"
+                        and not fcr.stores_between(ds[0][0], tn, {"self.iteration"}, ()))
+            return False
         for n in refresh:
-            facts = [a for a, t, lab, e in C.facts_at(g, n)]
-            ok = any(a[0] == "==" and "self.iteration" in (a[1], a[2]) and
-                     (("compute_t_plus(self.iteration)" in (a[1], a[2])) or ("t_plus" in (a[1], a[2]))) for a in facts)
+            fl = C.facts_at(g, n)
+            facts = [a for a, t, lab, e in fl]
+            ok = any(a[0] == "==" and "self.iteration" in (a[1], a[2]) and is_t_plus(a[2] if a[1] == "self.iteration" else a[1], t)
+                     for a, t, lab, e in fl)
             why = "guards: %s" % facts
         ctx.ob("R05-DELTA", ok, c.file, qual, "whole-tree refresh when the round counter reaches a power of two", why, fn.lineno)
 
